@@ -59,13 +59,17 @@ func (t template) wanted(n int, tier vp.Tier, sanitizer bool) bool {
 		return false
 	}
 	if tier == vp.Thorough {
-		return !sanitizer || n <= 1<<16+1
+		if sanitizer {
+			// -race multiplies the (already super-linear) compile times
+			return n <= 300 || n <= 1<<15+1 && quickTemplates[t.name]
+		}
+		return true
 	}
 	switch {
+	case sanitizer:
+		return n == 10 || n == 256 || n == 257 || n == 1<<15+1 && (t.name == "statements" || t.name == "jump-while")
 	case n <= 300:
 		return true
-	case sanitizer:
-		return n == 1<<15+1 && (t.name == "statements" || t.name == "jump-while")
 	case n <= 1<<15+1:
 		return quickTemplates[t.name]
 	case n <= 1<<16+1:
@@ -454,6 +458,8 @@ func runLimitTemplates(x *exec) {
 		if x.variant != "plain" {
 			nb = 1
 		}
+	} else if x.variant != "plain" {
+		nb = 4
 	}
 	for _, name := range boundaryTemplates[:nb] {
 		for _, t := range templates {
